@@ -14,3 +14,20 @@ Definition no_hold_res (r : hres) : bool := negb (r_code r =? RC_HOLD)%Z.
 Definition icall_okb (D : desc) (c : icall) : bool :=
   match c with ITrigger ci _ => ci <? length (pool D) | IHoldExit _ => true end.
 Definition res_calls_ok (D : desc) (r : hres) : bool := forallb (icall_okb D) (r_calls r).
+
+(* ---- the explicit bound on the number of cat_service calls ---- *)
+(* largest number of variables of a command *)
+Definition max_vars (D : desc) : nat :=
+  fold_right (fun c a => Nat.max (length (c_vars c)) a) 0 (pool D).
+(* calls of one complete run of the event machine (format + handler + flush of its buffer) *)
+Definition cost_u (D : desc) : nat := 10 * (max_vars D + 1) * (3 * usz_of D + 14).
+(* calls of one complete run of the command machine (name sweeps, argument loops, the list printer:
+   every command, six forms, one flush of the working buffer each) *)
+Definition cost_c (D : desc) : nat := 21 * (ncmds D + max_vars D + 1) * 7 * (3 * asz_of D + 14).
+(* a script entry may refill the event queue and restart both machines; an input byte restarts
+   the command machine; a queued event restarts the event machine *)
+Definition C15_bound (D : desc) (w : sworld) : nat :=
+  script_left (hs _ _ _ w) * ((d_cap D + 1) * cost_u D + cost_c D) +
+  length (inq (io _ _ _ w)) * cost_c D +
+  u_count (u (st _ _ _ w)) * cost_u D +
+  cost_u D + cost_c D.
